@@ -27,8 +27,13 @@ def run_instant(case):
     y, doy, ms, us = e["y"], e["doy"], e["ms"], e["us"]
     frac = f"{e['mmm']:03d}{us:03d}"
     compact = f"{y:04d}{e['month']:02d}{e['day']:02d}{e['hh']:02d}{e['mm']:02d}{e['ss']:02d}"
-    sod = f"{ms // 1000}.{ms % 1000:03d}"
-    ctx = dict(scene_center_time=compact + frac, creation_datetime=compact + f"{e['mmm'] // 10:02d}", pp_date=f"{y:04d} {e['month']:02d} {e['day']:02d}",
+    st = case["seed"] % 3
+    whole = str(ms // 1000) + f"{ms % 1000:03d}"  # the decimal digits of the value: no binary rounding in any of the texts
+    sod = (f"{ms // 1000}.{ms % 1000:03d}", f"{ms // 1000}.{ms % 1000:03d}000000000000",
+           f"{whole[0]}.{whole[1:].ljust(15, '0')}E+{len(str(ms // 1000)) - 1:02d}")[st]
+    # the date: three I4 integers in one of the styles the specification enumerates (blank padded / zero padded)
+    pp_date = e["date_text"][("blank", "zero2")[(case["seed"] // 3) % 2]] if "date_text" in e else f"{y:4d}{e['month']:4d}{e['day']:4d}"
+    ctx = dict(scene_center_time=compact + frac, creation_datetime=compact + f"{e['mmm'] // 10:02d}", pp_date=pp_date,
                pp_doy=doy, pp_sod=sod, att_doy=doy, att_ms=ms)
     lo = {(0, 0, "sensor_acquisition_date"): (y, doy, ms), (0, 0, "sensor_acquisition_date_microseconds"): ms * 1000 + us,
           (0, 1, "sensor_acquisition_date"): (y, doy, ms), (0, 1, "sensor_acquisition_date_microseconds"): ms * 1000 + us}
@@ -92,6 +97,9 @@ def body(chk):
     for v in r.violated:
         chk.violation(f"model:{v}", f"TLC: {v} violated in Calendar", {"tlc": r.out[-2000:]})
     insts = json.load(open(f))
+    rb = tlc.run("MC_Calendar", "MC_Calendar_bug", workers=4)
+    if "GreedyAgrees" not in rb.violated:
+        raise checklib.Machinery("non-vacuity: the instant family does not separate the positional date decoder from the blank-dropping one")
     if not any(i["doy"] == 366 for i in insts) or not any(i["doy"] == 60 and i["month"] == 2 and i["day"] == 29 for i in insts):
         raise checklib.Machinery("vacuity: no leap-day / day-366 instant in the family")
     rnd = random.Random(chk.seed)
